@@ -69,7 +69,7 @@ def en_token(rng, domain='any', attr_domain=None):
     from depccg.types import Token
     a = attr_domain or domain
     return Token(word=hostile_token(rng, domain), pos=rng.choice(('NN', 'VBZ', 'DT', 'IN', ',', '.', '-LRB-', 'PRP$', 'XX', '(', ')', '<sym>', '[', 'a>b', 'POS', 'ID=1')),
-                 entity=rng.choice(('O', 'I-ORG', 'B-DATE', 'XX')), lemma=hostile_token(rng, a).lower(),
+                 entity=rng.choice(('O', 'I-ORG', 'B-DATE', 'XX')), lemma=(lambda l: l if rng.random() < 0.4 else l.lower())(hostile_token(rng, a)),
                  chunk=rng.choice(('XX', 'I-NP', 'B-VP')))
 
 
